@@ -109,6 +109,11 @@ def exact_ancilla(inp):
     return {'violates': bool(bad), 'detail': bad}
 
 
+def file_view_equals_simple(inp):
+    from replay.c16 import file_view_equals_simple as f
+    return f(inp)
+
+
 def order_of_environments(inp):
     """two ancilla environments coupled through non-commuting system operators: [A,B] vs [B,A]"""
     import oqupy
